@@ -9,5 +9,6 @@ import LicenseExpr.Props.C05
 #print axioms LE.C05_text_default
 #print axioms LE.C05_fixpoint
 #print axioms LE.C05_text_general
+#print axioms LE.C05_text_proviso
 #print axioms LE.C05_fixpoint_general
 #print axioms LE.C05_key_ok
